@@ -38,6 +38,16 @@ def path_contents(rng, thorough):
     for k, times in ((200, 6), (180, 7), (230, 5)):
         b1, b2 = encgen.flat_then_flat(rng, k, times)
         add('flat-then-flat-%d' % k, b1 + b2)
+    # blocks whose number of sequences sweeps across the boundary between the one-byte and the two-byte form of the
+    # sequence-count field (127 / 128): a unique 5-byte separator, then a copy of 8 bytes of a random prefix, n times
+    P = rng.bytes(96)
+    for n in range(120, 138):
+        d = bytearray(P)
+        for i in range(n):
+            d += bytes([0xF0 + (i % 13), i & 0xFF, (i * 7) & 0xFF, 0xA5 ^ (i & 0x3F), (i >> 8) + 1])
+            o = (i * 11) % 80
+            d += P[o:o + 9]
+        add('sequence-count-%d' % n, bytes(d))
     # > 128 distinct symbols (FSE-compressed weights or none), few symbols (direct weights)
     add('wide-alphabet', encgen.literals(rng, 40000, 'wide'))
     add('two-symbols', encgen.literals(rng, 5000, 'two'))
